@@ -29,11 +29,11 @@ func succeeds(k int) bool { return k == KSucc || k == KOkSucc || k == KBadSucc }
 
 // partitioner choices
 const (
-	PHash      = iota // sarama.NewHashPartitioner, every message has a key
-	PManualIn         // sarama.NewManualPartitioner, msg.Partition inside [0,n)
-	PManualOut        // sarama.NewManualPartitioner, msg.Partition outside [0,n)
-	PRoundRobin       // sarama.NewRoundRobinPartitioner
-	PFailing          // harness partitioner: error for topic "b" (pinned by mocks' TestProducerWithBrokenPartitioner)
+	PHash       = iota // sarama.NewHashPartitioner, every message has a key
+	PManualIn          // sarama.NewManualPartitioner, msg.Partition inside [0,n)
+	PManualOut         // sarama.NewManualPartitioner, msg.Partition outside [0,n)
+	PRoundRobin        // sarama.NewRoundRobinPartitioner
+	PFailing           // harness partitioner: error for topic "b" (pinned by mocks' TestProducerWithBrokenPartitioner)
 	numPartitioners
 )
 
@@ -41,18 +41,18 @@ var partName = []string{"hash", "manual-in-range", "manual-out-of-range", "round
 
 // topic partition configurations (TopicConfig of the mocks); messages alternate topics "a","b"
 const (
-	TCDefault  = iota // untouched: 32 partitions everywhere
-	TCDefault3        // SetDefaultPartitions(3)
-	TCOverA2          // SetPartitions{a:2}; b keeps the default 32
-	TCDef5OverB1      // SetDefaultPartitions(5); SetPartitions{b:1}
-	TCChange          // SetDefaultPartitions(2); before message index n/2: SetPartitions{a:5}; SetDefaultPartitions(3)
+	TCDefault    = iota // untouched: 32 partitions everywhere
+	TCDefault3          // SetDefaultPartitions(3)
+	TCOverA2            // SetPartitions{a:2}; b keeps the default 32
+	TCDef5OverB1        // SetDefaultPartitions(5); SetPartitions{b:1}
+	TCChange            // SetDefaultPartitions(2); before message index n/2: SetPartitions{a:5}; SetDefaultPartitions(3)
 	numTC
 )
 
 var tcName = []string{"default32", "default3", "a=2,b=default32", "default5,b=1", "default2 then (a=5,default3) before msg n/2"}
 
 type Case struct {
-	Fam string `json:"fam"` // async | sync | conc | cons
+	Fam string `json:"fam"` // async | sync | conc | ovl | cons
 
 	// producer families
 	Script []int `json:"script,omitempty"` // expectation kinds, in order
@@ -72,10 +72,10 @@ type Case struct {
 
 // consumer family
 const (
-	OffAny      = iota // ExpectConsumePartition(…, AnyOffset)
-	OffMatch           // literal, ConsumePartition called with the same literal
-	OffMismatch        // literal, ConsumePartition called with a higher offset
-	OffMismatchBelow   // literal, ConsumePartition called with a lower offset
+	OffAny           = iota // ExpectConsumePartition(…, AnyOffset)
+	OffMatch                // literal, ConsumePartition called with the same literal
+	OffMismatch             // literal, ConsumePartition called with a higher offset
+	OffMismatchBelow        // literal, ConsumePartition called with a lower offset
 )
 const (
 	ClNone       = iota // partition consumer only closed through Consumer.Close
@@ -102,7 +102,7 @@ type PartSpec struct {
 
 type ConsCase struct {
 	Parts []PartSpec `json:"parts"`
-	Order []int      `json:"order"` // close operations in order: i = close op of Parts[i], -1 = Consumer.Close
+	Order []int      `json:"order"`           // close operations in order: i = close op of Parts[i], -1 = Consumer.Close
 	Ghost bool       `json:"ghost,omitempty"` // also ConsumePartition on a topic/partition that was never registered
 }
 
@@ -133,7 +133,7 @@ func tierBounds(tier string) bounds {
 	return bounds{MaxScript: 3, ConcScript: 3, Cons1Yields: 3, Cons2Yields: 1}
 }
 
-var families = []string{"async", "sync", "conc", "cons1", "cons2"}
+var families = []string{"async", "sync", "conc", "ovl", "cons1", "cons2"}
 
 // enumerate visits every case of the tier; visit returns false to stop. Returns false if stopped.
 func enumerate(b bounds, seed int, visit func(fam string, c *Case) bool) bool {
@@ -149,6 +149,8 @@ func enumerate(b bounds, seed int, visit func(fam string, c *Case) bool) bool {
 			ok = enumSync(b, v)
 		case "conc":
 			ok = enumConc(b, v)
+		case "ovl":
+			ok = enumOvl(b, v)
 		case "cons1":
 			ok = enumCons1(b, v)
 		case "cons2":
@@ -266,6 +268,30 @@ func enumSync(b bounds, visit func(*Case) bool) bool {
 								}
 							}
 						}
+					}
+				}
+			}
+			return true
+		})
+		if !ok {
+			return false
+		}
+	}
+	return true
+}
+
+// enumOvl: two SendMessage calls on a SyncProducer that OVERLAP: the first is held inside its checker function while the
+// second is issued (family "ovl": scripts of 2..3 expectations whose first has a checker, every partitioner, both checker APIs).
+func enumOvl(b bounds, visit func(*Case) bool) bool {
+	for l := 2; l <= 3; l++ {
+		ok := scripts(l, func(s []int) bool {
+			if !hasChk(s[0]) {
+				return true
+			}
+			for p := 0; p < numPartitioners; p++ {
+				for _, vc := range bools {
+					if !visit(&Case{Fam: "ovl", Script: s, N: 2, Part: p, TC: syncTCs[0], ValChk: vc, Plan: []int{0, 0}}) {
+						return false
 					}
 				}
 			}
